@@ -261,6 +261,29 @@ func (w *World) processCommits() {
 	if len(list) > 0 && len(w.plan.ScriptChain) > 0 {
 		w.applyScriptChain()
 	}
+	if len(list) > 0 && w.healed && w.plan.Checks["settle"] {
+		// settling rule, continued: a step that was in flight when the last
+		// replacement landed may still record a position of the old branch at
+		// or above the new head; the chain keeps growing past it.
+		for _, ss := range w.srcs {
+			need := int64(-1)
+			for _, ps := range w.pairs {
+				if ps.src == ss && ps.maxEverNum > need {
+					need = ps.maxEverNum
+				}
+			}
+			if d := need + 1 - int64(ss.node.HeadNum()); d > 0 {
+				ss.node.Grow(int(d))
+				w.logf("settle %s +%d head=%d", ss.plan.Name, d, ss.node.HeadNum())
+				for _, ps := range w.pairs {
+					if ps.src == ss {
+						ps.healBound += 8*int(d) + 8
+						ps.quietRun = 0
+					}
+				}
+			}
+		}
+	}
 	w.mu.Lock()
 	oq := w.outcomeQ
 	w.outcomeQ = nil
